@@ -272,6 +272,27 @@ let run_misc args = match args with
       emit (match strand_from_str (bytes_of_hex (atom s)) with
             | SOk st -> L [A "ok"; A (hex_of_bytes (show_strand st))] | SEmpty -> A "empty" | SInvalid -> A "invalid"))
   | _ -> raise (Bad "misc args")
+(* bincode wire format of the crate's record types: serialized bytes and the deserialization of those bytes *)
+let run_ser args = match args with
+  | [A t; r] -> with_panic (fun emit ->
+      let out bytes back = emit (L [A "bytes"; A (hex_of_bytes bytes)]); emit (L [A "rt"; back]) in
+      match t with
+      | "gr" -> (match lst r with [c; s; e] -> let g = ((chr c, num s), num e) in
+                  out (ser_grange g) (match de_all de_grange (ser_grange g) with Some x -> sx_gr x | None -> A "none") | _ -> raise (Bad "gr"))
+      | "bed3" | "bed4" | "bed5" | "bed6" -> let (b, _) = bed_of (lst r) in
+        out (ser_bedrec b []) (match de_all de_bedrec (ser_bedrec b []) with Some (x, []) -> sx_bed x | _ -> A "none")
+      | "np" -> let (b, rest) = bed_of (lst r) in
+        (match rest with [sg; p; q; pk] -> let x = { np_bed = b; np_signal = num sg; np_p = opt_of num p; np_q = opt_of num q; np_peak = num pk } in
+           out (ser_npeak x) (match de_all de_npeak (ser_npeak x) with Some y -> sx_np y | None -> A "none") | _ -> raise (Bad "np"))
+      | "bp" -> let (b, rest) = bed_of (lst r) in
+        (match rest with [sg; p; q] -> let x = { bp_bed = b; bp_signal = num sg; bp_p = opt_of num p; bp_q = opt_of num q } in
+           out (ser_bpeak x) (match de_all de_bpeak (ser_bpeak x) with Some y -> sx_bp y | None -> A "none") | _ -> raise (Bad "bp"))
+      | "bgi" -> (match lst r with [c; s; e; v] -> let x = { bg_chr = chr c; bg_st = num s; bg_en = num e; bg_val = VInt (znum v) } in
+           out (ser_bgraph x) (match de_all (de_bgraph false) (ser_bgraph x) with Some y -> sx_bg y | None -> A "none") | _ -> raise (Bad "bgi"))
+      | "bgf" -> (match lst r with [c; s; e; v] -> let x = { bg_chr = chr c; bg_st = num s; bg_en = num e; bg_val = VFloat (num v) } in
+           out (ser_bgraph x) (match de_all (de_bgraph true) (ser_bgraph x) with Some y -> sx_bg y | None -> A "none") | _ -> raise (Bad "bgf"))
+      | _ -> raise (Bad "ser type"))
+  | _ -> raise (Bad "ser args")
 let run_score args = match args with
   | [A "try"; v] -> with_panic (fun emit -> emit (match score_try_from (num v) with Some x -> L [A "ok"; an x] | None -> A "err"))
   | [A "str"; s] -> with_panic (fun emit ->
@@ -338,15 +359,17 @@ let blob_of x = match x with
 let run_chunk args = match args with
   | [A stack; items; wplan; rplan] -> with_panic (fun emit ->
       let items = List.map blob_of (tagged "items" items) in
-      if stack <> "bare" then emit (A "oracle-only")
+      if stack = "lz4" then emit (A "oracle-only")
       else begin
-        let (st, e) = dump { w_stored = []; w_plan = List.map wop_of (tagged "wplan" wplan) } items in
+        (* bare storage, or the uncompressed production stack: BufWriter on the way in, BufReader on the way out *)
+        let wp = List.map wop_of (tagged "wplan" wplan) and rp = List.map rop_of (tagged "rplan" rplan) in
+        let (st, e) = if stack = "bare" then dump { w_stored = []; w_plan = wp } items else dump_buffered wp items in
         match e with
         | Some _ -> emit (L [A "dump"; A "err"])
         | None ->
           emit (L [A "dump"; A "ok"]);
           emit (L [A "stored"; A (hex_of_bytes st.w_stored)]);
-          emit (L (A "items" :: List.map sx_citem (chunk_read st.w_stored (List.map rop_of (tagged "rplan" rplan)))))
+          emit (L (A "items" :: List.map sx_citem (if stack = "bare" then chunk_read st.w_stored rp else chunk_read_buffered st.w_stored rp)))
       end)
   | _ -> raise (Bad "chunk args")
 let run_chunkchk args = match args with
@@ -409,6 +432,7 @@ let run_case (x : sexp) : sexp =
   | L (A "fmt" :: args) -> run_fmt args
   | L (A "parse" :: args) -> run_parse args
   | L (A "score" :: args) -> run_score args
+  | L (A "ser" :: args) -> run_ser args
   | L (A "misc" :: args) -> run_misc args
   | L (A "read" :: args) -> run_read args
   | L (A "wr" :: args) -> run_wr args
